@@ -7,7 +7,7 @@ from vlib.common import PROVED, REFUTED, UNKNOWN
 
 FUNCTION = "util.update_custom_metadata"
 # obligation -> known finding; `refuted-known` only while the claims WITH the requirement (the region's complement) are all proved
-KNOWN = [("C16-P-merge-repeated-bytes-key-appended-twice", re.compile(r"merge\[[^\]]*\]\.repeated_bytes_key\."))]
+KNOWN = []          # C16-P-merge-repeated-bytes-key-appended-twice was repaired in /repo (9307486): a refutation is a violation again
 
 SNIPPET = '''import os, tempfile, shutil, pandas as pd, fastparquet
 from fastparquet.writer import update_file_custom_metadata
